@@ -33,7 +33,14 @@ GEN_PACKAGE = {
 	'c17gen/Ok.py': 'from pathlib import Path\n\n\nclass Ok:\n\t@staticmethod\n\tdef generate(type_descriptors, output):\n'
 		'\t\tPath(output).write_text("".join(f"{model.name}\\n" for model in type_descriptors), encoding="utf8")\n',
 	'c17gen/Boom.py': 'class Boom:\n\t@staticmethod\n\tdef generate(type_descriptors, output):\n\t\traise RuntimeError("generator failed")\n',
+	# the other ways a requested generation fails: the generator cannot write, trips over a descriptor, needs a module that is absent,
+	# or the named module exists but has no class of that name (c17gen.Missing does not exist at all)
+	'c17gen/BoomOs.py': 'class BoomOs:\n\t@staticmethod\n\tdef generate(type_descriptors, output):\n\t\traise OSError("cannot write output")\n',
+	'c17gen/BoomAttr.py': 'class BoomAttr:\n\t@staticmethod\n\tdef generate(type_descriptors, output):\n\t\treturn type_descriptors.no_such_attribute\n',
+	'c17gen/BoomImport.py': 'class BoomImport:\n\t@staticmethod\n\tdef generate(type_descriptors, output):\n\t\timport c17gen_absent_dependency\n',
+	'c17gen/NoClass.py': 'class SomethingElse:\n\tpass\n',
 }
+BOOM_GENERATORS = ('Boom', 'BoomOs', 'BoomAttr', 'BoomImport', 'NoClass', 'Missing')
 
 
 # ---------------------------------------------------------------------------------------------------------------------
@@ -220,6 +227,11 @@ def directed_cases():
 	for index, (name, root, files) in enumerate(cases):
 		for flags in (('yaml', 'gen_ok', 'gen_boom', 'none') if name in ('diamond', 'unknown-type', 'missing-import') else ('yaml',)):
 			out.append({'name': f'directed:{name}', 'root': root, 'files': files, 'flags': flags, 'cli': True, 'directed': True})
+		if name == 'diamond':
+			# a set that parses and validates: every way the requested generation can fail must still give a non-zero exit status
+			for boom in BOOM_GENERATORS[1:]:
+				out.append({'name': f'directed:{name}:generation-fails:{boom}', 'root': root, 'files': files, 'flags': 'gen_boom', 'boom': boom,
+					'cli': True, 'directed': True})
 	return out
 
 
@@ -321,7 +333,8 @@ def random_case(rng, number):
 		rng.choice(structs)['post_ok'] = False
 	root = paths[0] if fault != 'missing-root' else 'absent.cats'
 	flags = rng.choice(['yaml', 'yaml', 'yaml', 'gen_ok', 'gen_boom', 'none'])
-	return {'name': f'random:{style}:{fault}', 'root': root, 'files': files, 'flags': flags, 'cli': False, 'directed': False}
+	return {'name': f'random:{style}:{fault}', 'root': root, 'files': files, 'flags': flags, 'cli': False, 'directed': False,
+		'boom': rng.choice(BOOM_GENERATORS)}
 
 
 def gen_cases(rng, tier):
@@ -468,12 +481,12 @@ def class_parse(include, root):
 		return 'uncaught', type(ex).__name__
 
 
-def flag_args(flags, output):
+def flag_args(flags, output, boom='Boom'):
 	if flags == 'none':
 		return []
 	if flags == 'yaml':
 		return ['-o', str(output)]
-	return ['-o', str(output), '-g', 'c17gen.Ok' if flags == 'gen_ok' else 'c17gen.Boom']
+	return ['-o', str(output), '-g', 'c17gen.Ok' if flags == 'gen_ok' else f'c17gen.{boom}']
 
 
 def main_inprocess(cwd, args):
@@ -551,7 +564,7 @@ def execute(job):
 		cli_jobs = []
 		for index, (label, cwd, schema, include) in enumerate(variants(directory, case['root'], case['cli'] is True)):
 			output = outdir / f'in{index}.out'
-			code, raised, console = main_inprocess(cwd, ['-s', schema, '-i', include, '-q'] + flag_args(flags, output))
+			code, raised, console = main_inprocess(cwd, ['-s', schema, '-i', include, '-q'] + flag_args(flags, output, case.get('boom', 'Boom')))
 			data = output.read_bytes() if output.is_file() else None
 			result['runs'].append({'how': 'main()', 'variant': label, 'exit': code, 'raised': raised,
 				'output': None if data is None else data.decode('utf8', 'replace'), 'names': names_of_output(flags, data)})
@@ -560,7 +573,7 @@ def execute(job):
 			if case['cli'] is True or (case['cli'] == 'one' and index == 0):
 				output = outdir / f'cli{index}.out'
 				quiet = ['-q'] if index else []
-				cli_jobs.append((label, cwd, ['-s', schema, '-i', include] + quiet + flag_args(flags, output), output, not quiet))
+				cli_jobs.append((label, cwd, ['-s', schema, '-i', include] + quiet + flag_args(flags, output, case.get('boom', 'Boom')), output, not quiet))
 		env = common.impl_env()
 		env['PYTHONPATH'] = genpath + os.pathsep + env['PYTHONPATH']
 		procs = []
